@@ -384,3 +384,74 @@ func equalRunes(a, b []rune) bool {
 	}
 	return true
 }
+
+// inProvedFragment re-implements the Lean predicate `inW` (lean/CaddyModel/C17/Fragment.lean):
+// plain words, non-CR white space, `… {⏎ … ⏎}` blocks. On this fragment token preservation
+// and idempotence are THEOREMS (Props.fmt_preserves_tokens_partial / fmt_idempotent_partial);
+// the model prints the same bit (field W:), so the two definitions are compared on every case.
+func inProvedFragment(x string) bool {
+	r := []rune(x)
+	plain := func(c rune) bool {
+		return !unicode.IsSpace(c) && c != '"' && c != '#' && c != '<' && c != '\\' && c != '`' && c != '{' && c != '}' && c != 0xFEFF
+	}
+	const (
+		kNone = iota
+		kPlain
+		kOpen
+		kClose
+	)
+	prev := kNone
+	i, n := 0, len(r)
+	for {
+		nl := 0
+		sepLen := 0
+		for i < n && unicode.IsSpace(r[i]) {
+			if r[i] == '\r' {
+				return false
+			}
+			if r[i] == '\n' {
+				nl++
+			}
+			sepLen++
+			i++
+		}
+		if i >= n {
+			break
+		}
+		w0 := i
+		for i < n && !unicode.IsSpace(r[i]) {
+			i++
+		}
+		w := r[w0:i]
+		kind := kPlain
+		switch {
+		case len(w) == 1 && w[0] == '{':
+			kind = kOpen
+		case len(w) == 1 && w[0] == '}':
+			kind = kClose
+		default:
+			for _, c := range w {
+				if !plain(c) {
+					return false
+				}
+			}
+		}
+		switch prev {
+		case kNone:
+			if kind == kClose {
+				return false
+			}
+		case kPlain:
+			if kind == kOpen && nl != 0 || kind == kClose && nl < 1 {
+				return false
+			}
+		default: // after `{` or `}`
+			if nl < 1 || kind == kOpen {
+				return false
+			}
+		}
+		_ = sepLen
+		prev = kind
+	}
+	return prev == kPlain || prev == kClose
+}
